@@ -8,7 +8,7 @@ from ..flow import Aff, Facts, cmp_to_constraints
 
 META = {
     'design_ref': 'DESIGN.md §5 C03',
-    'technique': 'path-sensitive abstract interpretation of the comparison routines over position configurations with linear facts (Fourier-Motzkin entailment; padded list comparison normalised to the position loop); operator table and version_compare from path enumeration with substitution; character order chain from the paths of _order with regex literals and constant tables (constant folding of computed tables) evaluated per character class; chunk-partition language check; heap interpretation of __hash__ on classes of equally ordered versions (one value per class reaches hash()); may-raise rule for int() of unbounded digit runs, per public operation; constructor premise valid ⊆ accepted from the C14 automata; character order chain tabulated by interpreting _order on every ASCII character; freshness rule: every instance attribute read by the comparison or the hash is an assignable component or is stored by the single update funnel; NativeVersion._compare interpreted on all ordered pairs of a family of versions against an implementation of the dpkg order; the path-level readings are a second opinion where the routines leave their vocabulary',
+    'technique': 'path-sensitive abstract interpretation of the comparison routines over position configurations with linear facts (Fourier-Motzkin entailment; padded list comparison normalised to the position loop); operator table and version_compare from path enumeration with substitution; character order chain from the paths of _order with regex literals and constant tables (constant folding of computed tables) evaluated per character class; chunk-partition language check; heap interpretation of __hash__ on classes of equally ordered versions (one value per class reaches hash()); may-raise rule for int() of unbounded digit runs, per public operation; constructor premise valid ⊆ accepted from the C14 automata; character order chain tabulated by interpreting _order on every ASCII character; freshness rule: every instance attribute read by the comparison or the hash is an assignable component or is stored by the single update funnel; NativeVersion._compare interpreted on all ordered pairs of a family of versions against an implementation of the dpkg order; the path-level readings are a second opinion where the routines leave their vocabulary; the six operators and version_compare interpreted on the family; histories of refused and accepted assignments, each followed by comparisons and a hash against a fresh object of the version the edited object shows',
     'level_text': 'Static decision of necessary conditions: the six operators are _compare(other) <op> 0; epochs are compared as integers '
                   'with absent = 0 and decide alone only when they differ numerically; upstream then revision with the same default on both '
                   'sides; the chunk comparison is numeric for two digit chunks and delegates to the character comparison otherwise, padding an '
